@@ -46,6 +46,7 @@ cdef class AsyncTask(futures.FutureBase):
     cdef public object _contexts
     cdef public bint _contexts_active
     cdef public bint _dependencies_scheduled
+    cdef public long long _blocked_in_pass
     cdef public long long _total_time
     cdef public int _id
 
